@@ -9,6 +9,7 @@ import (
 	"encoding/json"
 	"fmt"
 	"math/big"
+	"runtime"
 	"os"
 	"strconv"
 	"strings"
@@ -249,3 +250,22 @@ func (a Z) Lt(b Z) bool   { return a.b.Cmp(b.b) < 0 }
 func (a Z) Ge(b Z) bool   { return a.b.Cmp(b.b) >= 0 }
 func (a Z) Gt(b Z) bool   { return a.b.Cmp(b.b) > 0 }
 func (a Z) Eq(b Z) bool   { return a.b.Cmp(b.b) == 0 }
+
+// TryKind runs f and classifies the outcome: 0 = returned, 1 = panicked with an ordinary value
+// (string, error, exception object), 2 = panicked with a Go runtime error (nil dereference,
+// index or slice bounds, division by zero, failed type assertion...).
+func TryKind(f func()) (kind int) {
+	defer func() {
+		if e := recover(); e != nil {
+			if s, ok := e.(string); ok && strings.HasPrefix(s, "zzverifrt:") {
+				panic(e)
+			}
+			kind = 1
+			if _, ok := e.(runtime.Error); ok {
+				kind = 2
+			}
+		}
+	}()
+	f()
+	return 0
+}
